@@ -357,6 +357,28 @@ func runScript(c *mon.Case, sp spec) {
 		}
 	}
 
+	// loseCarrier drops the connection that carried the latest transmission of request k while another
+	// connection stays (one is added first if need be), and waits until the socket has detached it.
+	loseCarrier := func(k int) {
+		txs := rig.TxsOf(fi, k)
+		if len(txs) == 0 || c.Failed() {
+			return
+		}
+		lt := txs[len(txs)-1]
+		if cl, _, _ := lt.Pipe.Closed(); cl {
+			return
+		}
+		if len(rig.LivePipes()) < 2 {
+			rig.AddPipe()
+		}
+		t := lt.Pipe.Drop()
+		ndropped++
+		awaitDetached()
+		events += "L"
+		ev("drop carrier of request %d after its end at %v", k, t)
+		c.Count("carrier_lost_after_end", 1)
+	}
+
 	// ---- end of the request's life ----
 	var endT time.Duration
 	id := txs[0].ID
@@ -464,7 +486,9 @@ func runScript(c *mon.Case, sp spec) {
 				c.Violate("req/recv-deadline-error", "unanswered request with 25ms receive deadline: Recv returned %v", err)
 			}
 			end2 := mon.Now()
-			// the timed-out request (k=2) must never be transmitted again either
+			// the timed-out request (k=2) must never be transmitted again either — not by a retry timer and
+			// not because the connection that carried it is lost afterwards while another peer is there
+			loseCarrier(2)
 			w := 3 * R
 			if w > 300*time.Millisecond || w == 0 {
 				w = 60 * time.Millisecond
@@ -480,6 +504,10 @@ func runScript(c *mon.Case, sp spec) {
 	}
 
 	// ---- never again ----
+	// (a connection loss after the request's life has ended must not bring it back either)
+	if sp.End != "sockclose" && c.Rand.Intn(2) == 0 {
+		loseCarrier(1)
+	}
 	w := 4 * R
 	if R == 0 || R >= time.Hour {
 		w = 50 * time.Millisecond
